@@ -31,7 +31,7 @@ def mddTableSound (tbl : List ApplyRow) : Bool :=
 each of its spellings (all 8 operand valuations); `\A`, `\E` are not implemented -/
 theorem mddApplyTable_sound : mddTableSound Gen.mddApplyTable = true := by decide
 
-theorem findRow_some {op : String} {tbl : List ApplyRow} {row : ApplyRow}
+theorem mddFindRow_some {op : String} {tbl : List ApplyRow} {row : ApplyRow}
     (h : findRow op tbl = some row) : row ∈ tbl ∧ row.aliases.contains op = true := by
   induction tbl with
   | nil => simp [findRow] at h
@@ -47,7 +47,7 @@ theorem findRow_some {op : String} {tbl : List ApplyRow} {row : ApplyRow}
 
 theorem mddRow_sound_of_find {op : String} {row : ApplyRow}
     (h : findRow op Gen.mddApplyTable = some row) : mddRowSound row op = true := by
-  obtain ⟨h1, h2⟩ := findRow_some h
+  obtain ⟨h1, h2⟩ := mddFindRow_some h
   have ht := mddApplyTable_sound
   unfold mddTableSound at ht
   have hr := List.all_eq_true.mp ht row h1
@@ -89,7 +89,7 @@ structure ApplyOK (m : MddMgr) (c : Conn) (u : Int) (v w : Option Int) (r : Int)
   mem : m'.tbl.Mem r
   den : ∀ a, MValid m.tbl a →
     denM m'.tbl r a = c.eval (denM m.tbl u a) (denO m.tbl v a) (denO m.tbl w a)
-  exact : ∀ ext, RefExact m ext → RefExact m' ext
+  exact : ∀ ext, MRefExact m ext → MRefExact m' ext
 
 theorem optNotMem_false {m : MddMgr} (h : MInv m) {v : Option Int} (hv : ¬ mddOptNotMem m v = true) :
     ∀ x, v = some x → m.tbl.Mem x := by
